@@ -1653,3 +1653,21 @@ class P(Prop):
                 for sig in ("3", "4", "4d", "var"):
                     for mode in ("min", "max"):
                         yield dict(case, glob=g, sig=sig, mode=mode)
+
+
+# ---- TIE3: translation tie of optimalPartition's D / M tables (generated TV.Gen.Segmentation.optimalPartition_tables) ----
+P.tie_modules = getattr(P, "tie_modules", []) + ["TracklibVerif.Tie.C12"]
+P.theorems = P.theorems + [
+    ("TracklibVerif.Tie.C12", "TV.Tie.C12.tie_optimalPartition_tables",
+     "translation tie: on a matrix of rows >= 1 rows of length >= rows-1 the generated optimalPartition_tables never raises and returns the (rows-1)x(rows-1) table of the model's (tables 0 rows C m).M cast to the scalar, for every int mode and model mode m with mode=0<->m=0, mode=1<->m=1"),
+    ("TracklibVerif.Tie.C12", "TV.Tie.C12.tie_optimalPartition_tables_toNat",
+     "the tie in explicit list form for 0 <= mode, model mode = mode.toNat, C i j = cost_matrix[i][j]"),
+    ("TracklibVerif.Tie.C12", "TV.Tie.C12.tie_optimalPartition_tables_anyMode",
+     "the tie for every int mode: any mode other than 0 / 1 (negative included) behaves as the model's mode 2"),
+    ("TracklibVerif.Tie.C12", "TV.Tie.C12.tie_optimalPartition_tables_empty",
+     "error correspondence: the empty cost matrix raises ValueError (np.zeros((-1,-1)))"),
+    ("TracklibVerif.Tie.C12", "TV.Tie.C12.initL_eq",
+     "the two initialisation loops (in loop form) build the model's init tables"),
+    ("TracklibVerif.Tie.C12", "TV.Tie.C12.forRange_loop",
+     "a generated `for x in range(a,b)` whose body is the encoded step on encoded states runs the model's loop"),
+]
